@@ -40,8 +40,10 @@ theorem tpSpringPE_eq_pt {K : Type} [Add K] [Sub K] [Mul K] [Neg K] [Div K] [OfN
     (sqrt : K → K) (k x0 : K) (X1 X2 : Pose K) (s1 s2 : V3 K) :
     tpSpringPE sqrt k x0 X1 X2 s1 s2 = ptSpringPE sqrt k x0 (X1.apply s1) (X2.apply s2) := rfl
 
+section ordered
+variable [LinearOrder K] [IsStrictOrderedRing K]
+
 theorem ptSpringPE_rate (sqrt : K → K) (k x0 : K) (P1 P2 v1 v2 : V3 K)
-    (hsq : sqrt (normSq (P2 - P1)) * sqrt (normSq (P2 - P1)) = normSq (P2 - P1))
     (hd : sqrt (normSq (P2 - P1)) ≠ 0) :
     (ptSpringPE (Jet.sqrt sqrt) (Jet.const k) (Jet.const x0) (liftV3 P1 v1) (liftV3 P2 v2)).eps
       = k * (sqrt (normSq (P2 - P1)) - x0) / sqrt (normSq (P2 - P1)) * dot (P2 - P1) (v2 - v1) := by
@@ -51,26 +53,347 @@ theorem ptSpringPE_rate (sqrt : K → K) (k x0 : K) (P1 P2 v1 v2 : V3 K)
     simp [normSq, dot, liftV3]; ring
   simp only [ptSpringPE, Jet.div_eps, Jet.mul_eps, Jet.mul_re, Jet.sub_re, Jet.sub_eps, Jet.sqrt_re, Jet.sqrt_eps,
     Jet.const_re, Jet.const_eps, Jet.re_2, Jet.eps_2, hre, heps]
-  generalize sqrt (normSq (P2 - P1)) = d at hsq hd ⊢
+  generalize sqrt (normSq (P2 - P1)) = d at hd ⊢
   generalize dot (P2 - P1) (v2 - v1) = rv
   field_simp
   ring
 
-section ordered
-variable [LinearOrder K] [IsStrictOrderedRing K]
-
 /-- **TwoPointLinearSpring**: power = −d(PE)/dt exactly (no dissipation), whenever the stations are not coincident -/
-theorem tpSpring_power_eq (sqrt : K → K) (hs : SqrtSpec sqrt) (k x0 : K) (X1 X2 : Pose K) (V1 V2 : Vel K) (s1 s2 : V3 K)
+theorem tpSpring_power_eq (sqrt : K → K) (k x0 : K) (X1 X2 : Pose K) (V1 V2 : Vel K) (s1 s2 : V3 K)
     (hd : sqrt (normSq (X2.apply s2 - X1.apply s1)) ≠ 0) :
     (tpSpringForce sqrt k x0 X1 X2 s1 s2).1.power V1 + (tpSpringForce sqrt k x0 X1 X2 s1 s2).2.power V2
       = -(tpSpringPE (Jet.sqrt sqrt) (Jet.const k) (Jet.const x0) (liftPose X1 V1) (liftPose X2 V2)
             (constV3 s1) (constV3 s2)).eps := by
   rw [tpSpringPE_eq_pt, liftPose_apply, liftPose_apply,
-    ptSpringPE_rate sqrt k x0 _ _ _ _ (hs.sq _ (normSq_nonneg _)) hd]
+    ptSpringPE_rate sqrt k x0 _ _ _ _ hd]
   simp only [tpSpringForce]
   rw [pair_power]
   simp only [Pose.apply, dot, smul, V3.sub_x, V3.sub_y, V3.sub_z, V3.add_x, V3.add_y, V3.add_z]
   ring
+
+/-- the force is the negative gradient: with `k (d − x0)` the documented tension, the power is
+`−k (d−x0) ḋ`, `ḋ = r·ṙ/d` -/
+theorem tpSpring_power_explicit (sqrt : K → K) (k x0 : K) (X1 X2 : Pose K) (V1 V2 : Vel K) (s1 s2 : V3 K) :
+    (tpSpringForce sqrt k x0 X1 X2 s1 s2).1.power V1 + (tpSpringForce sqrt k x0 X1 X2 s1 s2).2.power V2
+      = -(k * (sqrt (normSq (X2.apply s2 - X1.apply s1)) - x0) / sqrt (normSq (X2.apply s2 - X1.apply s1))
+          * dot (X2.apply s2 - X1.apply s1) (stationVel X2 V2 s2 - stationVel X1 V1 s1)) := by
+  simp only [tpSpringForce]
+  rw [pair_power]
+  simp only [Pose.apply, dot, smul, V3.sub_x, V3.sub_y, V3.sub_z, V3.add_x, V3.add_y, V3.add_z]
+  ring
+
+/-! ### pure dampers and constant forces: no potential energy; dampers never deliver power -/
+
+/-- **TwoPointLinearDamper**: reports no potential energy and its power is `−c (ḋ)² ≤ 0` -/
+theorem tpDamper_pe_is_zero_and_power_nonpos (sqrt : K → K) (c : K) (hc : 0 ≤ c) (X1 X2 : Pose K) (V1 V2 : Vel K)
+    (s1 s2 : V3 K) :
+    (tpDamperPE : K) = 0 ∧
+    (tpDamperForce sqrt c X1 X2 V1 V2 s1 s2).1.power V1 + (tpDamperForce sqrt c X1 X2 V1 V2 s1 s2).2.power V2 ≤ 0 := by
+  refine ⟨rfl, ?_⟩
+  simp only [tpDamperForce]
+  rw [pair_power]
+  generalize sqrt _ = n
+  generalize stationVel X1 V1 s1 = v1
+  generalize stationVel X2 V2 s2 = v2
+  generalize X2.p + X2.R.mulVec s2 - (X1.p + X1.R.mulVec s1) = r
+  have e : dot (smul (c * dot (v2 - v1) (divS r n)) (divS r n)) (v1 - v2)
+      = -(c * (dot (v2 - v1) (divS r n) * dot (v2 - v1) (divS r n))) := by
+    simp only [dot, smul, divS, V3.sub_x, V3.sub_y, V3.sub_z]; ring
+  rw [e]
+  have := mul_nonneg hc (mul_self_nonneg (dot (v2 - v1) (divS r n)))
+  linarith
+
+omit [LinearOrder K] [IsStrictOrderedRing K] in
+theorem constant_elements_pe_is_zero :
+    (tpConstPE : K) = 0 ∧ (constForcePE : K) = 0 ∧ (constTorquePE : K) = 0 ∧ (mobConstPE : K) = 0 :=
+  ⟨rfl, rfl, rfl, rfl⟩
+
+/-- **MobilityLinearDamper**: no potential energy, power `−c u² ≤ 0` -/
+theorem mobDamper_pe_is_zero_and_power_nonpos (c u : K) (hc : 0 ≤ c) :
+    (mobDamperPE : K) = 0 ∧ mobDamperForce c u * u ≤ 0 := by
+  refine ⟨rfl, ?_⟩
+  have := mul_nonneg hc (mul_self_nonneg u)
+  simp only [mobDamperForce]; nlinarith
+
+/-- **GlobalDamper**: no potential energy, power `−c Σ uᵢ² ≤ 0` -/
+theorem globalDamper_pe_is_zero_and_power_nonpos (c : K) (hc : 0 ≤ c) (u : List K) :
+    (globalDamperPE : K) = 0 ∧ mobPower (globalDamperForce c u) u ≤ 0 := by
+  refine ⟨rfl, ?_⟩
+  induction u with
+  | nil => simp [globalDamperForce, mobPower]
+  | cons a t ih =>
+    simp only [globalDamperForce, List.map_cons, mobPower] at ih ⊢
+    have := mul_nonneg hc (mul_self_nonneg a)
+    nlinarith
+
+/-! ### mobility spring and stop (coordinates with `q̇ = u`) -/
+
+omit [LinearOrder K] [IsStrictOrderedRing K] in
+/-- **MobilityLinearSpring**: generalized force × speed = −d(PE)/dt, no dissipation -/
+theorem mobSpring_power_eq (k q0 q u : K) (h2 : (2 : K) ≠ 0) :
+    mobSpringForce k q0 q * u = -(mobSpringPE (Jet.const k) (Jet.const q0) (⟨q, u⟩ : Jet K)).eps := by
+  simp only [mobSpringForce, mobSpringPE, Jet.div_eps, Jet.mul_eps, Jet.mul_re, Jet.sub_re, Jet.sub_eps,
+    Jet.const_re, Jet.const_eps, Jet.re_2, Jet.eps_2]
+  field_simp
+  ring
+
+/-- dissipation term of the stop: `power + d(PE)/dt` -/
+def mobStopDiss (k d qLow qHigh q qdot : K) : K :=
+  mobStopForce k d qLow qHigh q qdot * qdot
+    + (mobStopPE (Jet.const k) (Jet.const qLow) (Jet.const qHigh) (⟨q, qdot⟩ : Jet K)).eps
+
+/-- value of `d(PE)/dt` of the stop -/
+theorem mobStopPE_rate (k qLow qHigh q qdot : K) :
+    (mobStopPE (Jet.const k) (Jet.const qLow) (Jet.const qHigh) (⟨q, qdot⟩ : Jet K)).eps
+      = if ¬ (k < 0) ∧ ¬ (0 < k) then 0 else if qHigh < q then k * (q - qHigh) * qdot
+        else if q < qLow then k * (q - qLow) * qdot else 0 := by
+  unfold mobStopPE
+  simp only [Jet.lt_iff, Jet.const_re, Jet.re_0]
+  split_ifs <;> simp <;> field_simp <;> ring
+
+/-- closed form of the stop's dissipation term -/
+theorem mobStopDiss_eq (k d qLow qHigh q qdot : K) (hk : 0 < k) :
+    mobStopDiss k d qLow qHigh q qdot =
+      if qHigh < q then (if -(k * (q - qHigh) * (1 + d * qdot)) < 0 then -(k * (q - qHigh) * d * (qdot * qdot))
+                        else k * (q - qHigh) * qdot)
+      else if q < qLow then (if 0 < -(k * (q - qLow) * (1 - d * qdot)) then k * (q - qLow) * d * (qdot * qdot)
+                        else k * (q - qLow) * qdot)
+      else 0 := by
+  have hk0 : ¬ (¬ (k < 0) ∧ ¬ (0 < k)) := fun h => h.2 hk
+  unfold mobStopDiss
+  rw [mobStopPE_rate]
+  simp only [mobStopForce, if_neg hk0, kmin, kmax]
+  by_cases hd : ¬ (d < 0) ∧ ¬ (0 < d)
+  · have hd0 : d = 0 := le_antisymm (not_lt.mp hd.2) (not_lt.mp hd.1)
+    subst hd0
+    simp only [if_pos hd, mul_zero, zero_mul, add_zero, sub_zero, mul_one]
+    split_ifs <;> ring
+  · simp only [if_neg hd]
+    split_ifs <;> ring
+
+/-- **MobilityLinearStop**: `power = −d(PE)/dt + diss` with `diss ≤ 0` -/
+theorem mobStop_diss_nonpos (k d qLow qHigh q qdot : K) (hk : 0 ≤ k) (hd : 0 ≤ d) :
+    mobStopDiss k d qLow qHigh q qdot ≤ 0 := by
+  rcases eq_or_lt_of_le hk with hk0 | hkpos
+  · subst hk0
+    unfold mobStopDiss
+    rw [mobStopPE_rate]
+    simp [mobStopForce]
+  rw [mobStopDiss_eq _ _ _ _ _ _ hkpos]
+  split_ifs with h1 h2 h3 h4
+  · have hx : 0 < k * (q - qHigh) := mul_pos hkpos (sub_pos.mpr h1)
+    have := mul_nonneg (mul_nonneg hx.le hd) (mul_self_nonneg qdot)
+    linarith
+  · -- no force: 1 + d q̇ ≤ 0, so q̇ < 0
+    have hx : 0 < k * (q - qHigh) := mul_pos hkpos (sub_pos.mpr h1)
+    have h5 : k * (q - qHigh) * (1 + d * qdot) ≤ 0 := by linarith [not_lt.mp h2]
+    have h6 : 1 + d * qdot ≤ 0 := by
+      by_contra hc
+      have := mul_pos hx (not_le.mp hc); linarith
+    have hq : qdot ≤ 0 := by
+      by_contra hc
+      have := mul_nonneg hd (not_le.mp hc).le; linarith
+    nlinarith
+  · have hx : k * (q - qLow) < 0 := mul_neg_of_pos_of_neg hkpos (sub_neg.mpr h3)
+    have := mul_nonneg (mul_nonneg (neg_nonneg.mpr hx.le) hd) (mul_self_nonneg qdot)
+    nlinarith
+  · have hx : k * (q - qLow) < 0 := mul_neg_of_pos_of_neg hkpos (sub_neg.mpr h3)
+    have h5 : 0 ≤ k * (q - qLow) * (1 - d * qdot) := by linarith [not_lt.mp h4]
+    have h6 : 1 - d * qdot ≤ 0 := by
+      by_contra hc
+      have := mul_neg_of_neg_of_pos hx (not_le.mp hc); linarith
+    have hq : 0 ≤ qdot := by
+      by_contra hc
+      have := mul_nonneg hd (neg_nonneg.mpr (not_le.mp hc).le); linarith
+    nlinarith
+  · exact le_refl _
+
+/-- … and `diss = 0` when the stop has no dissipation (`d = 0`) -/
+theorem mobStop_diss_zero_of_undamped (k qLow qHigh q qdot : K) (hk : 0 ≤ k) :
+    mobStopDiss k 0 qLow qHigh q qdot = 0 := by
+  rcases eq_or_lt_of_le hk with hk0 | hkpos
+  · subst hk0
+    unfold mobStopDiss
+    rw [mobStopPE_rate]
+    simp [mobStopForce]
+  rw [mobStopDiss_eq _ _ _ _ _ _ hkpos]
+  split_ifs with h1 h2 h3 h4
+  · ring
+  · exfalso
+    have hx : 0 < k * (q - qHigh) := mul_pos hkpos (sub_pos.mpr h1)
+    apply h2; simp only [zero_mul, add_zero, mul_one]; linarith
+  · ring
+  · exfalso
+    have hx : k * (q - qLow) < 0 := mul_neg_of_pos_of_neg hkpos (sub_neg.mpr h3)
+    apply h4; simp only [zero_mul, sub_zero, mul_one]; linarith
+  · rfl
+
+example : mobStopDiss (2 : ℚ) 1 (-1) 1 2 3 = -18 := by
+  rw [mobStopDiss_eq _ _ _ _ _ _ (by norm_num)]; norm_num
+
+/-! ### gravity -/
+
+/-- total power of a list of body forces on bodies moving with the listed velocities -/
+def powerList : List (SpF K) → List (Vel K) → K
+  | F :: Fs, V :: Vs => F.power V + powerList Fs Vs
+  | _, _ => 0
+
+/-- a body moving with spatial velocity `V` (mass properties constant in the body frame) -/
+def liftGBody (b : GBody K) (V : Vel K) : GBody (Jet K) :=
+  ⟨Jet.const b.mass, constV3 b.com, liftPose b.X V, b.immune⟩
+
+omit [LinearOrder K] [IsStrictOrderedRing K] in
+theorem dot_const_lift (g P v : V3 K) :
+    (dot (constV3 g) (liftV3 P v)).re = dot g P ∧ (dot (constV3 g) (liftV3 P v)).eps = dot g v := by
+  constructor <;> simp [dot, constV3, liftV3]
+
+omit [LinearOrder K] [IsStrictOrderedRing K] in
+theorem uniformGravity_fold_eps (g : V3 K) (z : K) (bv : List (GBody K × Vel K)) (acc : Jet K) :
+    ((bv.map fun p => liftGBody p.1 p.2).foldl (fun pe b =>
+        pe - b.mass * (dot (constV3 g) (b.X.p + b.X.R.mulVec b.com) + Jet.const z)) acc).eps
+      = acc.eps - powerList (uniformGravityForce g (bv.map Prod.fst)) (bv.map Prod.snd) := by
+  induction bv generalizing acc with
+  | nil => simp [powerList, uniformGravityForce]
+  | cons p t ih =>
+    simp only [List.map_cons, List.foldl_cons, uniformGravityForce, powerList] at ih ⊢
+    rw [ih]
+    have e : (liftGBody p.1 p.2).X.p + (liftGBody p.1 p.2).X.R.mulVec (liftGBody p.1 p.2).com
+        = liftV3 (p.1.X.apply p.1.com) (stationVel p.1.X p.2 p.1.com) := liftPose_apply p.1.X p.2 p.1.com
+    rw [e, spf_power]
+    simp only [Jet.sub_eps, Jet.mul_eps, Jet.add_eps, Jet.add_re, Jet.const_re, Jet.const_eps,
+      (dot_const_lift g _ _).1, (dot_const_lift g _ _).2, liftGBody]
+    simp only [stationVel, dot, smul, V3.add_x, V3.add_y, V3.add_z]
+    ring
+
+omit [LinearOrder K] [IsStrictOrderedRing K] in
+/-- **UniformGravity**: total power of the body forces = −d(PE)/dt, no dissipation; any number of bodies -/
+theorem uniformGravity_power_eq (g : V3 K) (z : K) (bv : List (GBody K × Vel K)) :
+    powerList (uniformGravityForce g (bv.map Prod.fst)) (bv.map Prod.snd)
+      = -(uniformGravityPE (constV3 g) (Jet.const z) (bv.map fun p => liftGBody p.1 p.2)).eps := by
+  unfold uniformGravityPE
+  rw [uniformGravity_fold_eps]
+  simp
+
+theorem gravity_fold_eps (d : V3 K) (g z : K) (hg : ¬ (¬ (g < 0) ∧ ¬ (0 < g))) (bv : List (GBody K × Vel K)) (acc : Jet K) :
+    ((bv.map fun p => liftGBody p.1 p.2).foldl (fun pe b =>
+        if b.immune then pe else
+        pe - b.mass * (dot (smul (Jet.const g) (constV3 d)) (b.X.p + b.X.R.mulVec b.com) + Jet.const g * Jet.const z)) acc).eps
+      = acc.eps - powerList (gravityForce d g (bv.map Prod.fst)) (bv.map Prod.snd) := by
+  induction bv generalizing acc with
+  | nil => simp [powerList, gravityForce]
+  | cons p t ih =>
+    simp only [gravityForce, if_neg hg] at ih ⊢
+    simp only [List.map_cons, List.foldl_cons, powerList]
+    rw [ih]
+    by_cases him : p.1.immune = true
+    · simp [liftGBody, him, SpF.power, dot]
+    · have e : (liftGBody p.1 p.2).X.p + (liftGBody p.1 p.2).X.R.mulVec (liftGBody p.1 p.2).com
+          = liftV3 (p.1.X.apply p.1.com) (stationVel p.1.X p.2 p.1.com) := liftPose_apply p.1.X p.2 p.1.com
+      have him' : (liftGBody p.1 p.2).immune = false := by simpa [liftGBody] using him
+      simp only [him', Bool.false_eq_true, if_false, e]
+      have him2 : p.1.immune = false := by simpa using him
+      simp only [him2, Bool.false_eq_true, if_false]
+      rw [spf_power]
+      have sm : smul (Jet.const g) (constV3 d) = constV3 (smul g d) := by
+        apply V3.ext' <;> apply Jet.ext' <;> simp [smul, constV3]
+      rw [sm]
+      simp only [Jet.sub_eps, Jet.mul_eps, Jet.mul_re, Jet.add_eps, Jet.add_re, Jet.const_re, Jet.const_eps,
+        (dot_const_lift (smul g d) _ _).1, (dot_const_lift (smul g d) _ _).2, liftGBody]
+      simp only [stationVel, dot, smul, V3.add_x, V3.add_y, V3.add_z]
+      ring
+
+/-- **Gravity** (with exclusions and the `g = 0` shortcut): total power = −d(PE)/dt, no dissipation -/
+theorem gravity_power_eq (d : V3 K) (g z : K) (bv : List (GBody K × Vel K)) :
+    powerList (gravityForce d g (bv.map Prod.fst)) (bv.map Prod.snd)
+      = -(gravityPE (constV3 d) (Jet.const g) (Jet.const z) (bv.map fun p => liftGBody p.1 p.2)).eps := by
+  by_cases hg : ¬ (g < 0) ∧ ¬ (0 < g)
+  · have hz : ∀ l : List (GBody K × Vel K),
+        powerList ((l.map Prod.fst).map (fun _ => (SpF.zero : SpF K))) (l.map Prod.snd) = 0 := by
+      intro l; induction l with
+      | nil => rfl
+      | cons a t ih => simp only [List.map_cons, powerList, ih]; simp [SpF.power, dot]
+    unfold gravityPE gravityForce
+    simp only [Jet.lt_iff, Jet.const_re, Jet.re_0, if_pos hg, hz]
+    simp
+  · unfold gravityPE
+    simp only [Jet.lt_iff, Jet.const_re, Jet.re_0, if_neg hg]
+    rw [gravity_fold_eps d g z hg]
+    simp
+
+/-! ### linear bushing: the body forces do exactly the virtual work of the documented generalized forces -/
+
+omit [LinearOrder K] [IsStrictOrderedRing K] in
+/-- **LinearBushing**, principle of virtual work: for every motion of the two bodies the power of the applied
+body forces equals `Σ fᵢ q̇ᵢ` with `q̇` the coded coordinate rates (any `N`, any frames; only `R_GF` is used as a
+rotation) -/
+theorem bushing_power_virtual_work (X1 X2 : Pose K) (V1 V2 : Vel K) (XF XM : Pose K) (k c : Vec6 K) (qr cq sq : V3 K)
+    (h : (X1.comp XF).R.IsOrtho) :
+    (bushing X1 X2 V1 V2 XF XM k c qr cq sq).F_GB1.power V1 + (bushing X1 X2 V1 V2 XF XM k c qr cq sq).F_GB2.power V2
+      = Vec6.dot (bushing X1 X2 V1 V2 XF XM k c qr cq sq).f (bushing X1 X2 V1 V2 XF XM k c qr cq sq).qdot := by
+  set o := bushing X1 X2 V1 V2 XF XM k c qr cq sq with ho
+  set A := (X1.comp XF).R with hA
+  set B := (X2.comp XM).R with hB
+  set N := bushingN cq sq with hN
+  set pB1F := X1.R.mulVec XF.p with hp1
+  set pB2M := X2.R.mulVec XM.p with hp2
+  set pFM := A.mulVec o.X_FM.p with hp3
+  set m := B.mulVec (N.tmulVec o.f.r) with hm
+  set f := A.mulVec o.f.t with hf
+  have hF2 : o.F_GB2 = ⟨m + cross pB2M f, f⟩ := rfl
+  have hF1 : o.F_GB1 = ⟨-(m + cross pFM f) + cross pB1F (-f), -f⟩ := rfl
+  have hqt : o.qdot.t = A.tmulVec ((V2.v + cross V2.w pB2M) - (V1.v + cross V1.w pB1F) - cross V1.w pFM) := rfl
+  have hqr : o.qdot.r = N.mulVec (B.tmulVec (V2.w - V1.w)) := by
+    have : o.qdot.r = N.mulVec (M33.tmulVec (A.transpose.mul B) (A.tmulVec (V2.w - V1.w))) := rfl
+    rw [this, tmulVec_mul, transpose_tmulVec, M33.mulVec_tmulVec A h]
+  have e1 : dot o.f.r o.qdot.r = dot m (V2.w - V1.w) := by
+    rw [hqr, dot_comm', dot_mulVec, dot_comm', dot_tmulVec]
+  have e2 : dot o.f.t o.qdot.t = dot f ((V2.v + cross V2.w pB2M) - (V1.v + cross V1.w pB1F) - cross V1.w pFM) := by
+    rw [hqt, dot_tmulVec]
+  rw [Vec6.dot, e1, e2, hF1, hF2]
+  simp only [SpF.power, dot, cross, V3.add_x, V3.add_y, V3.add_z, V3.sub_x, V3.sub_y, V3.sub_z, V3.neg_x, V3.neg_y, V3.neg_z]
+  ring
+
+omit [LinearOrder K] [IsStrictOrderedRing K] in
+/-- `Σ fᵢ q̇ᵢ = −Σ kᵢ qᵢ q̇ᵢ − Σ cᵢ q̇ᵢ²` : minus the rate of the documented energy `Σ kᵢqᵢ²/2` along `q̇`, minus the
+documented dissipation rate -/
+theorem bushing_fdotqdot (k c q qdot : Vec6 K) (h2 : (2 : K) ≠ 0) :
+    Vec6.dot (docBushingF k c q qdot) qdot
+      = -(docBushingPE (⟨constV3 k.r, constV3 k.t⟩ : Vec6 (Jet K)) ⟨liftV3 q.r qdot.r, liftV3 q.t qdot.t⟩).eps
+        - docBushingPower c qdot := by
+  simp only [Vec6.dot, docBushingF, docBushingPE, docBushingPower, dot, constV3, liftV3, Jet.add_eps, Jet.div_eps,
+    Jet.mul_eps, Jet.mul_re, Jet.re_2, Jet.eps_2]
+  field_simp
+  ring
+
+/-- **LinearBushing**: `power = −d(PE)/dt + diss`, `diss = −Σ cᵢ q̇ᵢ² ≤ 0`, zero without damping.
+`d(PE)/dt` is the rate of the coded energy with the coordinates `q` moving at the coded rates `q̇`
+(that `q̇ = N·ω` *is* the rate of the Euler angles of `R_FM` is the kinematic fact of C28/C05, not re-proved here). -/
+theorem bushing_power_eq (X1 X2 : Pose K) (V1 V2 : Vel K) (XF XM : Pose K) (k c : Vec6 K) (qr cq sq : V3 K)
+    (h : (X1.comp XF).R.IsOrtho) :
+    let o := bushing X1 X2 V1 V2 XF XM k c qr cq sq
+    o.F_GB1.power V1 + o.F_GB2.power V2
+      = -(docBushingPE (⟨constV3 k.r, constV3 k.t⟩ : Vec6 (Jet K)) ⟨liftV3 o.q.r o.qdot.r, liftV3 o.q.t o.qdot.t⟩).eps
+        - docBushingPower c o.qdot
+    ∧ (0 ≤ c.r.x → 0 ≤ c.r.y → 0 ≤ c.r.z → 0 ≤ c.t.x → 0 ≤ c.t.y → 0 ≤ c.t.z → -docBushingPower c o.qdot ≤ 0)
+    ∧ (c = ⟨V3.zero, V3.zero⟩ → docBushingPower c o.qdot = 0) := by
+  intro o
+  refine ⟨?_, ?_, ?_⟩
+  · rw [bushing_power_virtual_work _ _ _ _ _ _ _ _ _ _ _ h]
+    have hf : o.f = docBushingF k c o.q o.qdot := by
+      simp only [o, bushing, docBushingF]
+      apply Vec6.ext' <;> apply V3.ext' <;> simp
+    rw [show (bushing X1 X2 V1 V2 XF XM k c qr cq sq) = o from rfl, hf]
+    exact bushing_fdotqdot k c o.q o.qdot two_ne_zero
+  · intro h1 h2 h3 h4 h5 h6
+    simp only [docBushingPower]
+    have := mul_nonneg h1 (mul_self_nonneg o.qdot.r.x)
+    have := mul_nonneg h2 (mul_self_nonneg o.qdot.r.y)
+    have := mul_nonneg h3 (mul_self_nonneg o.qdot.r.z)
+    have := mul_nonneg h4 (mul_self_nonneg o.qdot.t.x)
+    have := mul_nonneg h5 (mul_self_nonneg o.qdot.t.y)
+    have := mul_nonneg h6 (mul_self_nonneg o.qdot.t.z)
+    linarith
+  · intro hc; subst hc; simp [docBushingPower]
 end ordered
 
 end ForceLaws
